@@ -202,15 +202,30 @@ def strip_comments(txt):
     return "".join(out)
 
 
-def grep_forbidden():
+def import_cone(prop):
+    """files under lean/Cutadapt that the property module imports, transitively"""
+    seen, todo = set(), [f"Cutadapt.Properties.{prop}"]
+    while todo:
+        m = todo.pop()
+        if m in seen:
+            continue
+        p = os.path.join(LEAN, *m.split(".")) + ".lean"
+        if not os.path.exists(p):
+            continue
+        seen.add(m)
+        for line in strip_comments(open(p).read()).splitlines():
+            mm = re.match(r"\s*import\s+(Cutadapt\.\S+)", line)
+            if mm:
+                todo.append(mm.group(1))
+    return [os.path.join(LEAN, *m.split(".")) + ".lean" for m in sorted(seen)]
+
+
+def grep_forbidden(prop):
     hits = []
-    for root, _, files in os.walk(os.path.join(LEAN, "Cutadapt")):
-        for fn in files:
-            if fn.endswith(".lean"):
-                p = os.path.join(root, fn)
-                for n, line in enumerate(strip_comments(open(p).read()).splitlines(), 1):
-                    if FORBIDDEN.search(line):
-                        hits.append(f"{os.path.relpath(p, LEAN)}:{n}: {line.strip()[:120]}")
+    for p in import_cone(prop):
+        for n, line in enumerate(strip_comments(open(p).read()).splitlines(), 1):
+            if FORBIDDEN.search(line):
+                hits.append(f"{os.path.relpath(p, LEAN)}:{n}: {line.strip()[:120]}")
     return hits
 
 
@@ -234,7 +249,7 @@ def lean_proofs(ctx, clean=False):
         res["log"] = out[-6000:]
         build_ok = rc == 0
         res["build_ok"] = build_ok
-        res["forbidden"] = grep_forbidden()
+        res["forbidden"] = grep_forbidden(prop)
         propfile = os.path.join(LEAN, "Cutadapt", "Properties", f"{prop}.lean")
         declared = theorems_in(propfile) if os.path.exists(propfile) else []
         res["unlisted"] = [t for t in declared if t not in obl]
